@@ -267,6 +267,23 @@ def unit_changes(unit):
                 agg.violation(V("fingerprint.table", "transposition-not-noticed", case))
                 continue
             agg.outcomes["order-matters"] += 1
+        # wide tables (more columns than rows): the changed column sits at every position
+        for pos in range(3):
+            def wide(values):
+                cols = [Vector(list(range(200 + 10 * j, 200 + 10 * j + n)), name=f"c{j}") for j in range(3)]
+                cols[pos] = Vector(list(values), name="x")
+                return Table(cols)
+            w0 = wide(vals).fingerprint()
+            for i in range(n):
+                for new in ALPHA:
+                    if h(new) == h(vals[i]):
+                        continue
+                    v2 = list(vals); v2[i] = new
+                    agg.evals += 1; agg.transitions += 1; agg.compared += 1
+                    if wide(v2).fingerprint() == w0:
+                        agg.violation(V("fingerprint.table", "cell-change-not-noticed-wide-table", {"values": vals, "position": i, "new": new, "column": pos, "shape": [n, 3]}))
+                    else:
+                        agg.outcomes["change-noticed"] += 1
         # column order matters for tables
         if n >= 1:
             a = Table([Vector(list(vals), name="x"), Vector(list(range(100, 100 + n)), name="y")]).fingerprint()
